@@ -18,7 +18,7 @@ ENCODED = ["resonaate.estimation.maneuver_detection:StandardNis.__call__", "reso
            "resonaate.physics.statistics:chiSquareQuadraticForm", "resonaate.estimation.sequential_filter:SequentialFilter.checkManeuverDetection"]
 BOUNDS = {"history": "length 1..4 (quick), 1..6 (thorough)", "dimension": "1..8 per step, varying", "window": "1..3 (quick) / 1..4", "threshold, delta": "symbolic in (0,1)",
           "quadratic form": "dimension 1..2, any symmetric invertible covariance"}
-OUTSIDE = ["scipy.stats.chi2 itself (uninterpreted, only its arguments are checked)", "histories longer than the bound"]
+OUTSIDE = ["scipy.stats.chi2 itself (uninterpreted, only its arguments are checked): in particular the floating-point accuracy of the quantile at extreme significances (isf(alpha) versus ppf(1 - alpha) for alpha < 1e-10)", "histories longer than the bound"]
 ASSUMPTIONS = ["chi2.isf(alpha, nu) -> uninterpreted real function of (alpha, nu)", "inv(S) -> X with S X = X S = I",
                "the per-step NIS is cut to a symbolic value q_j >= 0 after chiSquareQuadraticForm has been proved to be r^T S^-1 r"]
 LEVEL_TEXT = ("Bounded symbolic verification over all histories up to the stated length with varying dimensions: flag, metric and degrees of freedom are proved equal to the "
@@ -37,12 +37,18 @@ def _tr(x):
 
 
 class Chi2Stub:
+    """scipy.stats.chi2: the upper-tail quantile is an uninterpreted function of (significance, dof); ppf(p, dof) is the same
+    quantile at significance 1 - p (mathematically; their floating-point difference at extreme significances is outside the claim)."""
+
     def __init__(self):
         self.calls = []
 
     def isf(self, alpha, dof):
         self.calls.append((alpha, dof))
         return SReal(ISF(_tr(alpha), _tr(dof)))
+
+    def ppf(self, p, dof):
+        return self.isf(1 - p, dof)
 
 
 class Res:
